@@ -42,6 +42,9 @@ pub fn structured() -> Vec<RVal> {
         coll(&[("l1", coll(&[("l2", coll(&[("l3", RVal::Set(vec![kw("deep"), RVal::Int(0x23, 4)]))]))]))]),
         RVal::Set(vec![inner.clone(), coll(&[("x-dim", RVal::Int(0x21, 1))])]),
         RVal::Set(vec![inner, kw("mixed")]),
+        // member names that are not ASCII (byte length != character count), flat and nested, and a long member name
+        coll(&[("gr\u{f6}\u{df}e", RVal::Int(0x21, 1)), ("\u{540d}", coll(&[("\u{e9}", kw("v"))]))]),
+        coll(&[(&"m".repeat(300), kw("long-member-name"))]),
     ]
 }
 
@@ -68,7 +71,10 @@ pub fn messages(thorough: bool) -> Vec<RMsg> {
     // every leading operation attribute present at once, and the same names used in other groups
     let mut full_op = op.clone();
     full_op.extend([("printer-uri".to_string(), t(0x45, "ipp://h/p")), ("job-uri".to_string(), t(0x45, "ipp://h/jobs/1")),
-                    ("job-id".to_string(), RVal::Int(0x21, 7)), ("requesting-user-name".to_string(), t(0x42, "u")), ("zzz".to_string(), kw("last"))]);
+                    ("job-id".to_string(), RVal::Int(0x21, 7)), ("requesting-user-name".to_string(), t(0x42, "u")), ("zzz".to_string(), kw("last")),
+                    // names that merely extend or abbreviate a leading attribute's name
+                    ("job-id-extra".to_string(), RVal::Int(0x21, 8)), ("printer-uri-supported".to_string(), t(0x45, "ipp://h/q")),
+                    ("attributes-charset-x".to_string(), kw("c")), ("job".to_string(), kw("j")), ("job-uris".to_string(), kw("k"))]);
     out.push(base(vec![(1, full_op.clone())]));
     out.push(base(vec![(1, full_op), (5, vec![("attributes-charset".to_string(), t(0x47, "utf-16")), ("printer-uri".to_string(), t(0x45, "ipp://other/")),
                                                ("job-id".to_string(), RVal::Int(0x21, 9)), ("job-uri".to_string(), t(0x45, "x"))]),
